@@ -601,3 +601,186 @@ Proof.
     + destruct (nth_error (rc_threads c) x) as [th0|] eqn:E0; [|discriminate]. cbn in Hn'. inversion Hn'; subst th'.
       rewrite tprog_notify in Hp'. destruct (H x th0 p' E0 Hp') as [Hw|Hin]; [exact Hw|contradiction].
 Qed.
+
+(* the two findings for a tower: the chain monitor is thread 0, all other threads serve API requests *)
+Definition tower_conf le sc fuel pfuel t flag polls (ops : list op) pending h ro fo : rconf :=
+  rinit t flag (map (thread_p le sc fuel pfuel) (TMonitor polls :: map TApi ops)) pending h ro fo.
+
+Lemma tower_conf_others le sc fuel pfuel t flag polls ops pending h ro fo sched :
+  forall x th p, nth_error (rc_threads (rrun_config (tower_conf le sc fuel pfuel t flag polls ops pending h ro fo) sched)) x = Some th ->
+                 tprog th = Some p -> no_wake p \/ In x [0%nat].
+Proof.
+  apply others_no_wake_run. intros x th p Hn Hp. destruct x as [|x]; [right; left; reflexivity|left].
+  cbn in Hn. apply nth_error_In in Hn. rewrite !map_map in Hn. apply in_map_iff in Hn. destruct Hn as [o [<- _]].
+  cbn in Hp. inversion Hp; subst. apply no_wake_api.
+Qed.
+
+Theorem block_path_stuck le sc fuel pfuel t flag polls ops pending h ro fo w :
+  let c0 := tower_conf le sc fuel pfuel t flag polls ops pending h ro fo in
+  stuck_waiting (rrun_config c0 w) 0 = true ->
+  forall sched, stuck_waiting (rrun_config c0 (w ++ sched)) 0 = true.
+Proof.
+  intros c0 Hs sched. rewrite rrun_app. apply waiting_monitor_is_stuck_forever; [exact Hs|].
+  intros x th p Hx Hn Hp. destruct (tower_conf_others le sc fuel pfuel t flag polls ops pending h ro fo w x th p Hn Hp) as [H|H]; [exact H|contradiction].
+Qed.
+
+Theorem request_path_stuck le sc fuel pfuel t flag polls ops pending h ro fo w a l :
+  let c0 := tower_conf le sc fuel pfuel t flag polls ops pending h ro fo in
+  a <> 0%nat -> stuck_on_lock (rrun_config c0 w) 0 a l = true ->
+  forall sched, stuck_on_lock (rrun_config c0 (w ++ sched)) 0 a l = true.
+Proof.
+  intros c0 Ha Hs sched. rewrite rrun_app. apply monitor_blocked_on_waiters_lock_is_stuck_forever; [congruence|exact Hs|].
+  intros x th p Hx Hn Hp. destruct (tower_conf_others le sc fuel pfuel t flag polls ops pending h ro fo w x th p Hn Hp) as [H|[H|[]]]; [exact H|].
+  exfalso. apply Hx. left. exact H.
+Qed.
+
+(* ------------------------------------------------------------------------------------------ *)
+(* 5. partial progress of a poll is kept: every block of the node is handed to the listeners exactly
+   once and in order, whatever fails when, for all schedules / oracles / thread sets *)
+
+(* generated from chain_monitor.rs: monitor_chain awaits poll_best_tip() itself, so no poll is ever cancelled *)
+Lemma stall_never_cancels : stall_cancels = false.
+Proof. unfold stall_cancels. rewrite (eq_refl : Bootstrap.MONITOR_LOOP_POLLS_TO_COMPLETION = true). reflexivity. Qed.
+
+Definition chain_view (c : rconf) : list N := delivered (rc_log c) ++ map fst (rc_pending c).
+
+Lemma fetch_step_chain c i first r c1 : fetch_step c i first = (r, c1) -> chain_view c1 = chain_view c.
+Proof.
+  unfold fetch_step, next_fetch, chain_view, delivered. rewrite stall_never_cancels. intros H.
+  destruct (rc_fetch_or c) as [|a rest]; [|destruct a]; cbn in H;
+    try (destruct (rc_pending c) as [|[hash txs] pend] eqn:Ep);
+    inversion H; subst; cbn; rewrite ?Ep; cbn; rewrite <- ?app_assoc; reflexivity.
+Qed.
+
+Lemma chain_view_step c j c' : rstep c j = Some c' -> chain_view c' = chain_view c.
+Proof.
+  intros Hs. destruct (rstep_inv _ _ _ Hs) as [th [Hn Hrel]].
+  destruct Hrel; try reflexivity.
+  unfold chain_view, delivered in *. cbn. apply (fetch_step_chain _ _ _ _ _ H0).
+Qed.
+
+Theorem partial_poll_progress_kept c sched : chain_view (rrun_config c sched) = chain_view c.
+Proof. apply (rrun_inv (fun c' => chain_view c' = chain_view c)); [|reflexivity]. intros c0 i c1 H Hs. rewrite (chain_view_step _ _ _ Hs). exact H. Qed.
+
+(* ------------------------------------------------------------------------------------------ *)
+(* 6. the request path recovers: an API thread waits (its request hit the outage), the monitor is about to
+   poll, the node has no new block and answers again *)
+
+Fixpoint calm (p : rprog rout) : Prop :=
+  match p with
+  | RRet _ | RExhausted => True
+  | RAcq _ k | RRel _ k | RWait k => calm k
+  | RAct B f k => forall b, calm (k b)
+  | RRpc B f k => forall b, calm (k (Verdict b))
+  | RSetFlag _ _ | RNotify _ | RReadFlag _ | RFetch _ _ | RPersist _ => False
+  end.
+
+Lemma calm_embedk {A} fuel (p : prog A) : forall (K : A -> rprog rout), (forall a, calm (K a)) -> calm (embedk fuel p K).
+Proof.
+  induction p as [a|l k IH|l k IH|B f k IH]; intros K HK; cbn [embedk].
+  - apply HK.
+  - specialize (IH K HK). destruct (N.eqb l L_reach); [|exact IH].
+    destruct k as [a|l' k'|l' k'|B f k']; try exact IH.
+    destruct k' as [a|l'' k''|l'' k''|B f k'']; exact IH.
+  - cbn. apply IH. exact HK.
+  - cbn. intros b. apply IH. exact HK.
+Qed.
+
+(* the fault-free run of an embedded ConcTower program is ConcTower's `exec` (hence Tower.step, by exec_is_step) *)
+Lemma rsolo_embedk {A} fuel (p : prog A) : forall (K : A -> rprog rout) t,
+  rsolo (embedk fuel p K) t = match exec p t with Ok a t' => rsolo (K a) t' | Abort s t' => (t', RAbort s) end.
+Proof.
+  induction p as [a|l k IH|l k IH|B f k IH]; intros K t; cbn [embedk exec].
+  - reflexivity.
+  - specialize (IH K t). destruct (N.eqb l L_reach); [|exact IH].
+    destruct k as [a|l' k'|l' k'|B f k']; try exact IH.
+    destruct k' as [a|l'' k''|l'' k''|B f k'']; exact IH.
+  - cbn. apply IH.
+  - cbn. destruct (f t) as [b t'|s t']; [apply IH|reflexivity].
+Qed.
+
+Section Recover.
+  Context (le : bool) (sc : script) (fuel pf : nat) (r0 : rout).
+  Context (pa0 : rprog rout) (held_a : list lock) (t0 : tower).
+  Context (Hcalm : calm pa0) (Hheld : memN L_reach held_a = false).
+
+  Let kret : rprog rout := RRet r0.
+  Let ta0 : rthread := mk_rthread (RParked false pa0) held_a.
+  Let T : tower := fst (rsolo pa0 t0).
+  Let R : rres := snd (rsolo pa0 t0).
+
+  Definition a_ok (ta : rthread) (t : tower) : Prop :=
+    match rt_st ta with
+    | RParked true p | RRun p => calm p /\ rsolo p t = (T, R)
+    | RParked false _ => False
+    | REnd r => t = T /\ r = R
+    end.
+
+  Inductive rinv (c : rconf) : Prop :=
+  | RI0 : rc_rpc_or c = [] -> rc_tower c = t0 -> rc_pending c = [] -> hd F_ok (rc_fetch_or c) = F_ok ->
+          rc_threads c = [mk_rthread (RRun (poll_p le sc fuel (S pf) kret)) []; ta0] -> rinv c
+  | RI1 : rc_rpc_or c = [] -> rc_tower c = t0 ->
+          rc_threads c = [mk_rthread (RRun (RAcq L_reach (RSetFlag true (RRel L_reach (RNotify kret))))) []; ta0] -> rinv c
+  | RI2 : rc_rpc_or c = [] -> rc_tower c = t0 ->
+          rc_threads c = [mk_rthread (RRun (RSetFlag true (RRel L_reach (RNotify kret)))) [L_reach]; ta0] -> rinv c
+  | RI3 : rc_rpc_or c = [] -> rc_tower c = t0 -> rc_flag c = true ->
+          rc_threads c = [mk_rthread (RRun (RRel L_reach (RNotify kret))) [L_reach]; ta0] -> rinv c
+  | RI4 : rc_rpc_or c = [] -> rc_tower c = t0 -> rc_flag c = true ->
+          rc_threads c = [mk_rthread (RRun (RNotify kret)) []; ta0] -> rinv c
+  | RI5 ta : rc_rpc_or c = [] -> rc_flag c = true -> a_ok ta (rc_tower c) ->
+          rc_threads c = [mk_rthread (RRun kret) []; ta] -> rinv c.
+
+  Lemma fetch_done c i first r c1 :
+    rc_pending c = [] -> hd F_ok (rc_fetch_or c) = F_ok -> fetch_step c i first = (r, c1) ->
+    r = FetchDone /\ rc_threads c1 = rc_threads c /\ rc_tower c1 = rc_tower c /\ rc_rpc_or c1 = rc_rpc_or c.
+  Proof.
+    unfold fetch_step, next_fetch. intros Hp Ho H.
+    destruct (rc_fetch_or c) as [|a rest]; cbn in Ho; [|subst a]; cbn in H; rewrite Hp in H; inversion H; subst; cbn; auto.
+  Qed.
+
+  Lemma rinv_step c j c' : rinv c -> rstep c j = Some c' -> rinv c'.
+  Proof.
+    intros Hi Hs. destruct Hi as [Ho Ht Hp Hf Eth|Ho Ht Eth|Ho Ht Eth|Ho Ht Hfl Eth|Ho Ht Hfl Eth|ta Ho Hfl Ha Eth].
+    1-5: destruct j as [|[|j]]; [| |unfold rstep in Hs; rewrite Eth in Hs; destruct j; cbn in Hs; discriminate];
+         unfold rstep in Hs; rewrite Eth in Hs; cbn in Hs; try discriminate.
+    - (* the poll finds nothing new *)
+      destruct (fetch_step c 0 true) as [r c1] eqn:Ef. destruct (fetch_done _ _ _ _ _ Hp Hf Ef) as [-> [E1 [E2 E3]]].
+      inversion Hs; subst c'. apply RI1; cbn; try congruence. rewrite E1, Eth. reflexivity.
+    - destruct (r_is_held c L_reach); [discriminate|]. inversion Hs; subst c'. apply RI2; cbn; try congruence. rewrite Eth. reflexivity.
+    - inversion Hs; subst c'. apply RI3; cbn; try congruence. rewrite Eth. reflexivity.
+    - inversion Hs; subst c'. apply RI4; cbn; try congruence. rewrite Eth. reflexivity.
+    - (* notify_all *)
+      inversion Hs; subst c'. apply (RI5 _ (mk_rthread (RParked true pa0) held_a)); cbn; try congruence.
+      split; [exact Hcalm|]. rewrite Ht. unfold T, R. destruct (rsolo pa0 t0); reflexivity.
+    - (* the monitor has returned; the API thread runs *)
+      destruct (rstep_inv _ _ _ Hs) as [th [Hn Hrel]]. rewrite Eth in Hn.
+      destruct j as [|[|j]]; cbn in Hn; [| |destruct j; discriminate]; inversion Hn; try subst th; clear Hn.
+      + destruct Hrel; cbn in H; discriminate.
+      + unfold a_ok in Ha.
+        destruct Hrel; rewrite H in Ha; cbn [calm rsolo] in Ha; try (exfalso; exact (proj1 Ha)); try destruct Ha as [Hc Hr];
+          try (rewrite H0 in Hr);
+          try (eapply RI5; [..|cbn; rewrite Eth; reflexivity]; cbn; try assumption; unfold a_ok; cbn; auto; fail).
+        all: try (match goal with H : rc_rpc_or _ = true :: _ |- _ => rewrite Ho in H; discriminate end).
+        all: try congruence.
+        all: eapply RI5; [..|cbn; rewrite Eth; reflexivity]; cbn; rewrite ?Ho; try assumption; try reflexivity;
+             unfold a_ok; cbn; try (inversion Hr; auto; fail); auto.
+  Qed.
+
+  Theorem request_path_recovers c sched :
+    rinv c ->
+    let c' := rrun_config c sched in
+    exists tm ta, rc_threads c' = [tm; ta] /\
+      (* the monitor has finished its poll -> the request is not waiting any more *)
+      (rfinished tm = true -> waiting_unnotified ta = false) /\
+      (* the request has returned -> state and answer are those of the run in which the node had answered at once *)
+      (forall r, rresult ta = Some r -> rc_tower c' = T /\ r = R).
+  Proof.
+    intros Hi c'. assert (H : rinv c') by (apply rrun_inv; [intros; eapply rinv_step; eauto|exact Hi]).
+    destruct H as [Ho Ht Hp Hf Eth|Ho Ht Eth|Ho Ht Eth|Ho Ht Hfl Eth|Ho Ht Hfl Eth|ta Ho Hfl Ha Eth];
+      eexists; eexists; (split; [exact Eth|]); (split; [cbn; try discriminate|]); try (intros r Hr; cbn in Hr; discriminate).
+    - intros _. unfold a_ok in Ha. unfold waiting_unnotified. destruct (rt_st ta) as [p|[|] p|r]; auto. destruct Ha.
+    - intros r Hr. unfold a_ok in Ha. unfold rresult in Hr. destruct (rt_st ta) as [p|[|] p|r']; try discriminate.
+      + destruct p; try discriminate. inversion Hr; subst r. cbn in Ha. destruct Ha as [_ Ha]. inversion Ha. auto.
+      + inversion Hr; subst r'. exact Ha.
+  Qed.
+End Recover.
